@@ -173,6 +173,12 @@ class Models(object):
         if modname == 'collections':
             ns = Namespace('collections', namedtuple=collections.namedtuple, OrderedDict=collections.OrderedDict)
             return ns if name is None else getattr(ns, name)
+        if modname == 'itertools':
+            import itertools
+            ns = Namespace('itertools', **{k: getattr(itertools, k) for k in ('product', 'combinations', 'permutations', 'chain', 'repeat',
+                                                                              'combinations_with_replacement', 'islice', 'count',
+                                                                              'accumulate', 'zip_longest')})
+            return ns if name is None else getattr(ns, name)
         if modname == 'functools':
             ns = Namespace('functools', partial=functools.partial)
             return ns if name is None else getattr(ns, name)
@@ -212,6 +218,17 @@ class Models(object):
         np.float64 = np.float_ = FLOAT
         np.complex128 = np.complex_ = COMPLEX
         np.int_ = self.int_
+        # abstract scalar types for isinstance (python and numpy scalars are not told apart by the analysis: a rational or
+        # symbolic number counts as a float of either family)
+        from .absint import TypeLike
+        num = lambda x: (isinstance(x, (int, Fr, Poly, Rat)) or hasattr(x, 'is_elem_')) and not isinstance(x, Arr)       # noqa: E731
+        np.number = TypeLike('number', lambda x=0: x, lambda x: num(x) and not isinstance(x, bool))
+        np.integer = TypeLike('integer', lambda x=0: x, lambda x: isinstance(x, int) and not isinstance(x, bool))
+        np.floating = TypeLike('floating', lambda x=0: x, lambda x: (isinstance(x, (Fr, Rat)) or (isinstance(x, Poly) and x.is_real())
+                                                                      or getattr(x, 'kind', None) == 'f') and not isinstance(x, Arr))
+        np.complexfloating = TypeLike('complexfloating', lambda x=0: x, lambda x: (isinstance(x, Poly) and not x.is_real())
+                                      or getattr(x, 'kind', None) in ('c', 'z'))
+        np.bool_ = TypeLike('bool_', lambda x=False: bool(x), lambda x: isinstance(x, bool))
         np.finfo = lambda t=None: Namespace('finfo', eps=Poly.sym('EPS'), tiny=Poly.sym('TINY'),
                                             smallest_normal=Poly.sym('TINY'), max=Poly.sym('HUGE'),
                                             min=-Poly.sym('HUGE'))
@@ -235,6 +252,9 @@ class Models(object):
             a, b = self.np_asarray(a), self.np_asarray(b)
             return Arr(tuple(a.shape) + tuple(b.shape), [s_mul(x, y) for x in a.items() for y in b.items()])
         np.multiply.outer = multiply_outer
+        np.add = lambda a, b: self._bin(s_add, a, b)
+        np.add.reduce = lambda a, axis=0, **kw: self.np_sum(a, axis=axis)
+        np.multiply.reduce = lambda a, axis=0, **kw: self.np_prod(a, axis=axis)
         np.divide = np.true_divide = lambda a, b: self._bin(s_div, a, b)
         np.logical_and = lambda a, b: ew2(ndarr.s_and, a, b)
         np.logical_or = lambda a, b: ew2(ndarr.s_or, a, b)
@@ -249,7 +269,7 @@ class Models(object):
                      'isscalar', 'clip', 'cumsum', 'mean', 'sort', 'argsort', 'copy', 'meshgrid', 'allclose',
                      'isclose', 'expand_dims', 'broadcast_to', 'array_equal', 'count_nonzero', 'trapz',
                      'nanmedian', 'flip', 'tile', 'repeat', 'unravel_index', 'cumprod', 'take', 'ascontiguousarray',
-                     'column_stack', 'resize', 'real_if_close', 'ptp', 'vdot', 'putmask', 'issubdtype', 'polyfit', 'polyval', 'fliplr', 'flipud', 'triu', 'tril', 'copyto', 'unique'):
+                     'column_stack', 'resize', 'swapaxes', 'moveaxis', 'real_if_close', 'ptp', 'vdot', 'putmask', 'issubdtype', 'polyfit', 'polyval', 'fliplr', 'flipud', 'triu', 'tril', 'copyto', 'unique'):
             fn = getattr(self, 'np_' + name, None)
             if fn is None:
                 fn = self._unmodelled('np.' + name)
@@ -527,6 +547,32 @@ class Models(object):
     def np_transpose(self, x, axes=None):
         a = self.np_asarray(x)
         return a.transpose() if axes is None else a.transpose(axes)
+
+    def np_swapaxes(self, x, axis1, axis2):
+        a = self.np_asarray(x)
+        perm = list(range(a.ndim))
+        perm[axis1], perm[axis2] = perm[axis2], perm[axis1]
+        return a.transpose(perm)
+
+    def np_moveaxis(self, x, source, destination):
+        a = self.np_asarray(x)
+        perm = [k for k in range(a.ndim) if k != source % a.ndim]
+        perm.insert(destination % a.ndim, source % a.ndim)
+        return a.transpose(perm)
+
+    def np_flip(self, x, axis=None):
+        a = self.np_asarray(x)
+        idx = tuple(slice(None, None, -1) if (axis is None or k == axis % a.ndim) else slice(None) for k in range(a.ndim))
+        return a[idx]
+
+    def np_take(self, a, indices, axis=None, **kw):
+        a = self.np_asarray(a)
+        if axis is not None:
+            raise AnalysisError('np.take with an axis')
+        flat = a.ravel()
+        if isinstance(indices, Arr):
+            return Arr(indices.shape, [ndarr.flat_get(flat, i) for i in indices.items()])
+        return ndarr.flat_get(flat, indices)
 
     def np_squeeze(self, x, axis=None):
         return self.np_asarray(x).squeeze(axis)
@@ -825,8 +871,21 @@ class Models(object):
 
     def np_cumsum(self, a, axis=None):
         a = self.np_asarray(a)
-        if a.ndim != 1 and axis is not None:
-            raise AnalysisError('cumsum on nd array')
+        if a.ndim > 1 and axis is not None:
+            axis = axis % a.ndim
+            perm = [axis] + [k for k in range(a.ndim) if k != axis]
+            m = a.transpose(perm)
+            n0, cols = m.shape[0], _prod(m.shape[1:])
+            items = m.items()
+            out = [None] * (n0 * cols)
+            for c in range(cols):
+                acc = 0
+                for r in range(n0):
+                    v = items[r * cols + c]
+                    acc = s_add(acc, int(v) if isinstance(v, bool) else v)
+                    out[r * cols + c] = acc
+            res = Arr(m.shape, out)
+            return res.transpose([perm.index(k) for k in range(a.ndim)]).copy()
         out, acc = [], 0
         for v in a.ravel().items():
             acc = s_add(acc, v)
